@@ -35,6 +35,14 @@ func (ce *certEnv) pair(k int) [2][]byte {
 	if p, ok := ce.pairs[k]; ok {
 		return p
 	}
+	if k >= 100 {
+		// a chain variant: the SAME leaf and key as pair k%100, followed by one more certificate in the file (an
+		// intermediate added or re-issued); only the rest of the chain tells the files apart
+		base := ce.pair(k % 100)
+		extra, _ := genCertPair(fmt.Sprintf("chain-%d", k))
+		ce.pairs[k] = [2][]byte{append(append([]byte{}, base[0]...), extra...), base[1]}
+		return ce.pairs[k]
+	}
 	c, key := genCertPair(fmt.Sprintf("pair-%d", k))
 	ce.pairs[k] = [2][]byte{c, key}
 	return ce.pairs[k]
@@ -54,8 +62,13 @@ func presented(e *e2eEnv) string {
 			raw.Close()
 			return "x"
 		}
-		cn := tc.ConnectionState().PeerCertificates[0].Subject.CommonName
+		pcs := tc.ConnectionState().PeerCertificates
+		cn := pcs[0].Subject.CommonName
 		raw.Close()
+		if len(pcs) > 1 {
+			// what is presented is the certificate FILE: leaf and chain
+			return strings.TrimPrefix(pcs[1].Subject.CommonName, "chain-")
+		}
 		return strings.TrimPrefix(cn, "pair-")
 	}
 	return "x"
@@ -271,6 +284,18 @@ func init() {
 						steps = append(steps, fmt.Sprintf("S%d", k))
 					}
 				}
+			}
+			if k > 0 && r.chance(1, 3) {
+				// a chain-only update: the new certificate file holds the same leaf (same key) and a different rest of chain
+				switch style {
+				case "inplace":
+					steps = append(steps, fmt.Sprintf("wc%d", k+100))
+				case "rename":
+					steps = append(steps, fmt.Sprintf("rc%d", k+100))
+				default:
+					steps = append(steps, fmt.Sprintf("M%d.%d", k+100, k))
+				}
+				c.tag("chain-only-update")
 			}
 			if style != "symlink" && r.chance(1, 3) {
 				// the history ends with one or both files MISSING: the last good pair must still be presented
